@@ -163,6 +163,10 @@ func runC03(r *Run) {
 	r.Alias("$method", "embedded.GetEmbeddedMethod(recv.context,a0.ToAddress,a0.Data)")
 	r.Guards(c03Rows())
 
+	// the views the checks and the execution run against, and the pool they are layered on
+	contextProvenanceRules(r)
+	poolInvalidationRules(r)
+
 	// receiver binding under the height gate (D15 is about which height the gate reads; the guard itself must exist)
 	r.Guard("verifier.(*accountBlockVerifier).fromHash",
 		r.X("le(verifier.ReceiverMismatchEnforcementHeight,recv.frontierStore.Identifier().Height) @ F($b.IsSendBlock()) & ne($b.Address,$send#0.ToAddress)"),
